@@ -178,6 +178,15 @@ pub fn decode_pwb(bytes: &[u8]) -> Map<String, Value> {
     }
 }
 
+/// Decodes twice in a row on this thread and records whether the second result equals the first.
+pub fn decode_twice(fam: &str, bytes: &[u8]) -> Map<String, Value> {
+    let mut first = decode_by_fam(fam, bytes);
+    let second = decode_by_fam(fam, bytes);
+    let same = first == second;
+    first.insert("again".into(), json!(same as u8));
+    first
+}
+
 pub fn decode_by_fam(fam: &str, bytes: &[u8]) -> Map<String, Value> {
     match fam {
         "trg" => decode_trg(bytes),
